@@ -269,38 +269,67 @@ pub struct WildcardCase {
 }
 
 pub fn arb_wildcard() -> BoxedStrategy<WildcardCase> {
-    let field = prop_oneof![
-        6 => Just("*".to_string()),
-        8 => (0u32..=255).prop_map(|n| n.to_string()),
-        3 => prop::sample::select(vec!["0", "1", "127", "128", "254", "255", "256", "257", "300", "999", "1000", "65536"]).prop_map(|s| s.to_string()),
-        2 => (0u32..=300).prop_map(|n| format!("{:03}", n)),
+    let good = prop_oneof![
+        4 => Just("*".to_string()),
+        6 => (0u32..=255).prop_map(|n| n.to_string()),
+        1 => prop::sample::select(vec!["0", "1", "127", "128", "254", "255"]).prop_map(|s| s.to_string()),
+        1 => (0u32..=255).prop_map(|n| format!("{:03}", n)),
+    ];
+    let bad = prop_oneof![
+        3 => prop::sample::select(vec!["256", "257", "300", "999", "1000", "65536", "4294967296"]).prop_map(|s| s.to_string()),
+        2 => (256u32..=400).prop_map(|n| format!("{:03}", n)),
         1 => (0u32..=255).prop_map(|n| format!("000000000000000000000{}", n)),
-        1 => (0u32..=255).prop_map(|n| format!("+{}", n)),
-        1 => (0u32..=255).prop_map(|n| format!("-{}", n)),
-        1 => Just(String::new()),
+        2 => (0u32..=255).prop_map(|n| format!("+{}", n)),
+        2 => (0u32..=255).prop_map(|n| format!("-{}", n)),
+        2 => Just(String::new()),
         1 => (0u32..=255).prop_map(|n| format!(" {}", n)),
         1 => (0u32..=255).prop_map(|n| format!("{} ", n)),
         1 => (0u32..=255).prop_map(|n| format!("0x{:x}", n)),
-        1 => (0u32..=255).prop_map(|n| format!("{:x}", n)),
-        1 => prop::sample::select(vec!["**", "*1", "1*", "٣", "１２", "²", "1e1", "1.0", "1_0", "*.", "a"]).prop_map(|s| s.to_string()),
+        1 => (10u32..=255).prop_map(|n| format!("{:x}", n)),
+        2 => prop::sample::select(vec!["**", "*1", "1*", "٣", "１２", "²", "1e1", "1.0", "1_0", "a", "+", "-", "+*"]).prop_map(|s| s.to_string()),
         1 => "\\PC{0,3}".prop_map(|s| s),
     ];
-    let sep = prop_oneof![12 => Just("."), 1 => Just(","), 1 => Just(".."), 1 => Just(" ."), 1 => Just(":")];
-    (vec((field, sep), 1..=6), prop::bool::weighted(0.05), prop::bool::weighted(0.05))
-        .prop_map(|(parts, lead, trail)| {
-            let mut s = String::new();
-            if lead {
-                s.push('.');
-            }
-            let n = parts.len();
-            for (i, (f, sep)) in parts.into_iter().enumerate() {
-                s.push_str(&f);
-                if i + 1 < n {
-                    s.push_str(sep);
+    (
+        vec(good, 4..=4),
+        0u8..10,
+        any::<prop::sample::Index>(),
+        bad,
+        prop::sample::select(vec![",", "..", " .", ":", ". ", ""]),
+    )
+        .prop_map(|(mut fields, m, idx, badfield, badsep)| {
+            let mut seps = vec![".".to_string(); 3];
+            match m {
+                0 | 1 | 2 | 3 => {}
+                4 | 5 => {
+                    let i = idx.index(4);
+                    fields[i] = badfield;
+                }
+                6 => {
+                    fields.pop();
+                    seps.pop();
+                }
+                7 => {
+                    fields.push(badfield.clone());
+                    seps.push(".".to_string());
+                    if badfield.is_empty() {
+                        // trailing dot
+                    }
+                }
+                8 => {
+                    let i = idx.index(3);
+                    seps[i] = badsep.to_string();
+                }
+                _ => {
+                    fields.insert(0, String::new());
+                    seps.insert(0, ".".to_string());
                 }
             }
-            if trail {
-                s.push('.');
+            let mut s = String::new();
+            for (i, f) in fields.iter().enumerate() {
+                s.push_str(f);
+                if i + 1 < fields.len() {
+                    s.push_str(&seps[i]);
+                }
             }
             WildcardCase { text: s }
         })
